@@ -833,6 +833,8 @@ def check_C14(res):
 # ================================================================================================ monitors
 def gen_useq(rng, maxlen):
     ops = ['new', 'sdlcs:%d' % rng.randrange(1, 65)]
+    if rng.random() < 0.4:
+        ops.append('sbs:%d' % rng.choice([1, 4, 8, 16, 64]))
     n = rng.randrange(3, maxlen + 1)
     tot = 0
     for _ in range(n):
@@ -906,6 +908,27 @@ def monitor_corr(pipe, res, kind, nseq, maxlen):
     if len(mod) != len(seqs):
         res.oblige('D:driver-session', False, '%d answers for %d sequences' % (len(mod), len(seqs)))
         return []
+    if kind == 'u':
+        # every blocked read also becomes a `demand` probe: the read sleeps, then a write is tried beside it
+        extra = []
+        for sq, a in zip(list(seqs), mod):
+            parts = a[len(cmd) + 1:].split(' | ')
+            for j, pa in enumerate(parts):
+                if pa.endswith(' block'):
+                    if sq[j].startswith('r:'):
+                        n = sq[j].split(':')[1]
+                        k = rng.randint(1, 8)     # (the woken read copies from the new container: its vector must hold what it declares)
+                        extra.append(sq[:j] + [rng.choice(['demand:%s:w:%s' % (n, 'ab' * rng.randint(1, 6)),
+                                                           'demand:%s:wc:%d:%s' % (n, k, 'cd' * k)])])
+                    break
+        if extra:
+            mod2, rc, err = lib.session(drv, ['%s %s' % (cmd, ';'.join(sq)) for sq in extra])
+            if len(mod2) != len(extra):
+                res.oblige('D:driver-session', False, '%d answers for %d demand sequences' % (len(mod2), len(extra)))
+                return []
+            seqs = seqs + extra
+            mod = mod + mod2
+        res.corr['demand_probes'] = len(extra)
     sent = []
     expect = []
     executed = []
@@ -917,6 +940,10 @@ def monitor_corr(pipe, res, kind, nseq, maxlen):
         exp = list(parts)
         risky = False
         for j, pa in enumerate(parts):
+            if pa.startswith('u demand'):
+                exp = parts[:j + 1]
+                ops2 = sq[:j + 1]
+                break
             if pa.endswith(' block'):
                 ops2 = sq[:j] + ['probe-' + sq[j]]
                 exp = parts[:j + 1]
@@ -1889,6 +1916,33 @@ def check_sched(res, prop):
     res.corr['samples'] = [{'session': sx['base'][:100], 'runs': len(sx['runs']), 'first': sx['runs'][0][1][:100]} for sx in R['sessions'][:3]]
     if prop == 'C11':
         tsan_stress(res, pipe, summary, exact)
+    if prop == 'C06':
+        # object sizes up to 4 x (buffer + container) and container sizes above the buffer: native sessions (too long for
+        # the controlled scheduler), watchdog with a confirmation re-run
+        ti = next(i for i, f in enumerate(next(c for c in summary['classes'] if c['name'] == 'AppText')['fields']) if f['name'] == 'text')
+        big = [('large-object-default-container', 'level=1 cs=131072 rp=1', [300000]),
+               ('container-above-buffer', 'level=1 cs=200000 rp=1', [150000, 150000]),
+               ('large-object-small-container', 'level=0 cs=4096 rp=0', [600000]),
+               ('container-equal-buffer', 'level=6 cs=131072 rp=1', [131072, 1, 131071])]
+        env = dict(fc.fenv()); env['VERIF_WATCHDOG_S'] = '25'; env['VERIF_CAP'] = str(256 << 20)
+        for name, opts, sizes in big:
+            rq = 'writefile %s %s' % (opts, ' '.join(';; AppText %d=%s' % (ti, '61' * n) for n in sizes))
+            for attempt in range(2):
+                w, rc, err = lib.session(fexe, [rq], env=env, timeout=120)
+                res.corr['requests'] += 1
+                if w and w[0].startswith('writefile out='):
+                    break
+            if not (w and w[0].startswith('writefile out=')):
+                fails.setdefault(('File', 'deadlock-write-session-' + name), ({'kind': 'write', 'reqs': {'native': rq[:300] + '...'}}, 'native', (w[0] if w else 'no answer')[:100]))
+                continue
+            fhex = w[0].split('out=')[1]
+            for attempt in range(2):
+                r, rc, err = lib.session(fexe, ['readfile ' + fhex], env=env, timeout=120)
+                res.corr['requests'] += 1
+                if r and 'outcome=ended' in r[0]:
+                    break
+            if not (r and 'outcome=ended' in r[0] and ' n=%d ' % len(sizes) in r[0]):
+                fails.setdefault(('File', 'deadlock-read-session-' + name), ({'kind': 'read', 'reqs': {'native': 'readfile of: ' + rq[:300] + '...'}}, 'native', (r[0] if r else 'no answer')[:100]))
     for (cl, kind), (sx, lab, det) in fails.items():
         res.violation('schedule', '%s under schedule %s of a %s session (%s)' % (kind, lab, sx['kind'], det[:200]),
                       {'class': cl, 'failure': kind, 'request': sx['reqs'].get(lab, ''), 'schedule': lab})
